@@ -57,7 +57,7 @@ class EquityVolCurve:
 
         vol = self._f(strike)
 
-        if vol.any() < 0.0:
+        if np.any(vol < 0.0):
             raise FinError("Negative volatility. Not permitted.")
 
         return vol
